@@ -11,7 +11,7 @@ import docrun
 
 META = {
     'theorem_files': ['Props/C18.v'],
-    'theorems': ['C18_no_persistent_write', 'C18_reachability_complete', 'C18_clock_only_in_ack_envelope'],
+    'theorems': ['C18_no_persistent_write', 'C18_reachability_complete', 'C18_clock_only_in_ack_envelope', 'C18_no_hash_order_leak'],
     'generators': ['effects.py'],
     'trusted_base': [
         'Coq 8.16.1 kernel; vm_compute over the generated effect summary; no native_compute',
@@ -40,9 +40,9 @@ def corpus():
     return docs
 
 
-def fresh(text, charset, exclude=None):
+def fresh(text, charset, exclude=None, seed=None):
     env = dict(os.environ)
-    env['PYTHONHASHSEED'] = str(random.randint(0, 1000))
+    env['PYTHONHASHSEED'] = str(random.randint(0, 1000) if seed is None else seed)
     try:
         p = subprocess.run([core.PY, '-W', 'ignore', os.path.join(core.VERIF, 'harness', 'docrun.py')],
                            input=json.dumps({'text': text, 'charset': charset, 'exclude': exclude}).encode(), capture_output=True, timeout=300, env=env)
@@ -100,6 +100,32 @@ def run(ctx, report):
         resource.setrlimit(resource.RLIMIT_AS, (6 * 1024 ** 3, hard_))
     except Exception:  # noqa
         pass
+    # the interpreter's hash seed: documents that collect SEVERAL codes at one level (set: body error + wrong SE01 + wrong SE02;
+    # segment: several segment codes; element: several element codes) in fresh interpreters under different PYTHONHASHSEEDs
+    import re as _re2
+    many = []
+    for name, text in docs:
+        if len(many) >= (6 if ctx['tier'] == 'thorough' else 3) or not text.startswith('ISA') or len(text) < 200:
+            continue
+        t_, e_ = text[105], text[3]
+        m_ = _re2.search(_re2.escape(t_) + r'\s*SE' + _re2.escape(e_) + r'(\d+)' + _re2.escape(e_) + r'([^' + _re2.escape(t_ + e_) + r']*)', text)
+        d_ = _re2.search(_re2.escape(e_) + r'D8' + _re2.escape(e_) + r'(\d{8})', text)
+        if not m_ or not d_ or d_.start() > m_.start():
+            continue
+        t2 = text[:d_.start(1)] + '20041305' + text[d_.end(1):m_.start(1)] + str(int(m_.group(1)) + 3) + text[m_.end(1):m_.start(2)] + 'X9' + text[m_.end(2):]
+        many.append((name + '+several-codes', t2))
+    report.count('docs:several-codes-under-different-hash-seeds', len(many))
+    for (name, text) in many:
+        outs = [fresh(text, 'B', None, seed=k_) for k_ in (0, 1, 2, 3, 5, 8)]
+        report.case(('hash-seeds', name))
+        for field in ('verdict', 'ack', 'html', 'xml', 'context', 'back'):
+            vals = [o.get(field) for o in outs]
+            if any(v != vals[0] for v in vals[1:]):
+                k_ = next(i for i, v in enumerate(vals) if v != vals[0])
+                report.fail('C18:%s-depends-on-hash-seed' % field, 'output "%s" of %s differs between fresh interpreters with PYTHONHASHSEED 0 and %d' % (
+                    field, name, (0, 1, 2, 3, 5, 8)[k_]), {'document': name, 'text': text[:3000], 'seeds': [0, (0, 1, 2, 3, 5, 8)[k_]]},
+                    first=(vals[0] or '')[:400], other=(vals[k_] or '')[:400])
+                break
     for s in range(n_seq):
         seq = [rng.choice(docs) for _ in range(rng.randint(2, 10))]
         if twice and s % 2 == 0:
